@@ -196,7 +196,8 @@ def iterparse_character_subset(s: str, expand_ranges: bool = False) -> Iterator[
         else:
             if escaped:
                 escaped = False
-                yield ord('\\')
+                if s[k] != '$':  # \$ is the single character escape of XPath regexes
+                    yield ord('\\')
             on_range = False
             char = s[k]
             if k >= length - 2 or s[k + 1] != '-':
